@@ -15,6 +15,8 @@ claimed = {
  "C16": dict(tech=TECH, ref="3 C16", text="Every interleaving of 2-3 Resolve callers (one cancellable, with canceller) with the completion of a scripted function (success/error sequences, fast or slow, context-aware), followed by late callers; overlap, call-after-success, result and retry oracles; MemoizeFunc with 3 concurrent callers."),
  "C11": dict(tech=TECH + "; deterministic livelock detection at the scheduling-point horizon", ref="3 C11", text="Every interleaving of concurrent SetResult calls with awaiters of the three kinds, cancellers and channel threads on Promise, and of SetPromise/SetResult replacements with awaiters on PromiseContainer, over every result error value incl. the context sentinels; winner-uniqueness, result-agreement, source-fired and parked-at-quiescence oracles; a spinning awaiter is a deterministic livelock."),
  "C18": dict(tech=TECH, ref="3 C18", text="Every interleaving of producers (all batch splits), jobs, a WaitIdle caller and a WatchState watcher on ConcurrentQueue with limit 1, 2 and unlimited: concurrency bound, exactly-once, FIFO for limit 1, count invariants on every reported pair, WaitIdle soundness and liveness at quiescence."),
+ "C04": dict(tech=TECH, ref="3 C04", text="A controller issues every short word over the restart-causing calls (RoutineContainer and StateRoutineContainer, plus a retry back-off variant with freely firing timers) while instances return late after cancellation; every interleaving up to the bound; an active-instance counter and wait-channel watchers decide overlap."),
+ "C05": dict(tech=TECH, ref="3 C05", text="Same exploration plus two concurrent controllers; at every controller return superseded instances must already be cancelled and at most one live instance exists; at quiescence the survivor must derive from the current context and have the latest state."),
  "C01": dict(tech=TECH, ref="3 C01", text="Every interleaving (preemption bound 2 quick / 3 thorough) of 8+4 small client programs of csync.Mutex/RWMutex (Lock, TryLock, Locker, double release, cancellation) runs on the real code; an exact occupancy counter checks 'one writer or many readers' at every acquire."),
  "C02": dict(tech=TECH, ref="3 C02", text="Same exploration; liveness is decided exactly at every quiescent state of the controlled scheduler (nobody parked in a grantable Lock), cancelled waiters must return context.Canceled and leave the lock probe-able, readers may not overtake a waiting writer."),
 }
